@@ -23,7 +23,9 @@ GENERATED_OBLIGATIONS = ["Generated.actionContext: ContextVar used only through 
 RULE = ("fork-join programs: 2-4 units (threads or asyncio tasks, nested spawns allowed), 2-6 logging statements each (enter/exit of own "
         "actions, messages), every spawned unit joined before the enclosing action ends; Action objects are shared between units: blocks "
         "`with h.context():` on an action of an ancestor that is open during the unit's whole life (several units on the SAME action, "
-        "overlapping), and `with h:` in one unit on an action created for it by its spawner (possibly before the handle exists: the unit waits); schedules: ALL interleavings of small programs "
+        "overlapping), and `with h:` in one unit on an action created for it by its spawner (possibly before the handle exists: the unit waits); units spawned inside a `with h.context():` segment which the creator leaves "
+        "before the unit logs; plus 9 thread schedules of two failing actions with exception extractors (one raising), one thread parked "
+        "inside the delivery of its eliot:traceback message (oracle only, not in the Lean model); schedules: ALL interleavings of small programs "
         "(<= 2 units x <= 3 steps inside the fork), random enabled picks (+ some disabled picks) for larger ones; "
         "non-trivial = >= 1 preemption while the preempted unit is inside an action it entered or inherited; distinct by canonical hash")
 TRUSTED = ["CPython contextvars semantics for threads (fresh context) and asyncio tasks (copy at creation) are modelled (Ctx.step), validated by this run",
@@ -148,6 +150,12 @@ def gen_program(rng, nunits, family):
                 at = i if rng.random() < 0.6 else i + 1
                 codes[u] = codes[u][:at] + [["create", job]] + codes[u][at:]
             i = next(k for k, st in enumerate(codes[u]) if st[0] in ("thread", "task", "pthread") and st[1] == v)
+            # spawn inside a `with h.context():` segment that the creator leaves right away: the child keeps h
+            here = avail[u] + open_handles(codes[u], i)
+            if here and rng.random() < 0.35:
+                codes[u] = codes[u][:i] + [["ctx", rng.choice(here)], codes[u][i], ["exit"]] + codes[u][i + 1:]
+                i += 1
+                nshared += 1
             avail[v] = avail[u] + open_handles(codes[u], i)
             if job is not None:
                 new = wrap_segment(rng, codes[v], ["with", job])
@@ -171,17 +179,21 @@ def gen_program(rng, nunits, family):
 
 
 def joined(code):
-    """Python mirror of Ctx.joinedB [] 0 code"""
-    pend, d = [], 0
+    """Python mirror of Ctx.joinedB [] [] code: a unit must be joined before the action enclosing its spawn ends;
+    leaving a `ctx` block ends no action"""
+    pend, stk = [], []
     for st in code:
-        if st[0] in ("enter", "with", "ctx", "remote"):
-            d += 1
+        if st[0] in ("enter", "with", "remote"):
+            stk.append(True)
+        elif st[0] == "ctx":
+            stk.append(False)
         elif st[0] == "exit":
-            if any(dv >= d for _v, dv in pend):
-                return False
-            d = max(d - 1, 0)
+            if stk:
+                d = sum(stk)
+                if stk.pop() and any(dv >= d for _v, dv in pend):
+                    return False
         elif st[0] in ("thread", "task", "pthread"):
-            pend.append((st[1], d))
+            pend.append((st[1], sum(stk)))
         elif st[0] == "join":
             pend = [e for e in pend if e[0] != st[1]]
     return not pend
@@ -790,6 +802,158 @@ def evaluate(ctx, cases, tag):
             ctx.traces += 1
 
 
+# ---- exception extractors under a thread schedule ------------------------------------------------
+# The other piece of per-context state in eliot: while the failure of an exception extractor is being
+# reported (eliot:traceback), extractors are switched off *for the reporting context only*.  Two threads each
+# fail an action; thread A's exception has an extractor that raises, thread B's has a working one (or B calls
+# write_traceback).  A is parked INSIDE the delivery of its eliot:traceback message (the logger is the preemption
+# point), B runs meanwhile.  What each thread logs must not depend on the schedule.  Not part of the Lean model
+# (attribution is not affected): oracle only.
+
+class BrokenInfo(Exception):
+    pass
+
+
+def _broken_extractor(e):
+    raise RuntimeError("extractor failed")
+
+
+class GateLogger(object):
+    """delegates to a MemoryLogger; parks thread `who` while it delivers a message of type `mtype`"""
+
+    def __init__(self, inner):
+        import threading
+        self.inner = inner
+        self.who = None
+        self.mtype = None
+        self.parked = threading.Event()
+        self.release = threading.Event()
+
+    def write(self, dictionary, serializer=None):
+        import threading
+        if self.who is not None and threading.current_thread().name == self.who and dictionary.get("message_type") == self.mtype:
+            self.parked.set()
+            self.release.wait(TIMEOUT)
+        return self.inner.write(dictionary, serializer)
+
+    def __getattr__(self, name):
+        return getattr(self.inner, name)
+
+
+EXTRACTOR_SCHEDULES = ["A;B", "B;A", "A[B]"]          # A[B]: B runs while A is inside the delivery of its eliot:traceback
+EXTRACTOR_VARIANTS = ["B-fails-action", "B-write-traceback", "B-nested-in-action"]
+
+
+def run_extractor(case):
+    """-> per-thread canonical messages"""
+    import threading
+    import eliot
+    from eliot import MemoryLogger, start_action, write_traceback
+    from eliot.testing import swap_logger
+    from eliot._errors import _error_extraction
+
+    lg = MemoryLogger()
+    gate = GateLogger(lg)
+    prev = swap_logger(gate)
+    had = BrokenInfo in _error_extraction.registry
+    eliot.register_exception_extractor(BrokenInfo, _broken_extractor)
+    problems = []
+
+    def unit_a():
+        try:
+            with start_action(action_type="A"):
+                raise BrokenInfo("a")
+        except BrokenInfo:
+            pass
+        except BaseException as e:  # noqa
+            problems.append("A raised %s" % type(e).__name__)
+
+    def unit_b():
+        v = case["variant"]
+        try:
+            if v == "B-fails-action":
+                with start_action(action_type="B"):
+                    raise OSError(5, "io")
+            elif v == "B-write-traceback":
+                try:
+                    raise OSError(7, "io")
+                except OSError:
+                    write_traceback()
+            else:
+                with start_action(action_type="B0"):
+                    try:
+                        with start_action(action_type="B"):
+                            raise OSError(9, "io")
+                    except OSError:
+                        pass
+        except OSError:
+            pass
+        except BaseException as e:  # noqa
+            problems.append("B raised %s" % type(e).__name__)
+
+    try:
+        ta = threading.Thread(target=unit_a, name="unit-A", daemon=True)
+        tb = threading.Thread(target=unit_b, name="unit-B", daemon=True)
+        sc = case["sched"]
+        if sc == "A;B":
+            ta.start(); ta.join(TIMEOUT); tb.start(); tb.join(TIMEOUT)
+        elif sc == "B;A":
+            tb.start(); tb.join(TIMEOUT); ta.start(); ta.join(TIMEOUT)
+        else:
+            gate.who, gate.mtype = "unit-A", "eliot:traceback"
+            ta.start()
+            if not gate.parked.wait(TIMEOUT):
+                problems.append("A never delivered an eliot:traceback message")
+            tb.start(); tb.join(TIMEOUT)
+            gate.release.set()
+            ta.join(TIMEOUT)
+        if ta.is_alive() or tb.is_alive():
+            problems.append("a thread did not finish")
+    finally:
+        gate.release.set()
+        swap_logger(prev)
+        if not had:
+            _error_extraction.registry.pop(BrokenInfo, None)
+    # canonical content per task: everything but time, uuid and traceback text
+    by_task = {}
+    for m in lg.messages:
+        d = {k: v for k, v in m.items() if k not in ("timestamp", "task_uuid", "traceback")}
+        if "reason" in d:
+            d["reason"] = str(d["reason"])[:60]
+        if "exception" in d:
+            d["exception"] = str(d["exception"])
+        by_task.setdefault(m.get("task_uuid"), []).append(d)
+    tasks = sorted((sorted(ms, key=lambda d: d["task_level"]) for ms in by_task.values()), key=repr)
+    return dict(tasks=tasks, problems=problems)
+
+
+def evaluate_extractors(ctx):
+    for variant in EXTRACTOR_VARIANTS:
+        ref = None
+        for sc in EXTRACTOR_SCHEDULES:
+            case = dict(kind="extractor", variant=variant, sched=sc)
+            obs = run_extractor(case)
+            ctx.case(case, nontrivial=(sc == "A[B]"), tags=["extractor", "extractor:" + sc])
+            check_extractor(ctx, case, obs, ref)
+            if ref is None:
+                ref = obs
+
+
+def check_extractor(ctx, case, obs, ref):
+    if obs["problems"]:
+        ctx.violation("extractor scenario did not run: %s" % obs["problems"][0], case, key={"component": "extractor-run"})
+        return
+    errnos = [m.get("errno") for t in obs["tasks"] for m in t if "errno" in m]
+    if len(errnos) != 1:
+        ctx.violation("thread B's OSError lost (or duplicated) the field of its working extractor: errno fields logged = %s under schedule %s"
+                      % (errnos, case["sched"]), case, key={"component": "extractor-fields"})
+        return
+    if ref is not None and obs["tasks"] != ref["tasks"]:
+        ctx.violation("what the two threads logged differs from the sequential schedule A;B (beyond the order of the tasks)", case,
+                      key={"component": "extractor-fields"}, extra=dict(this=obs["tasks"], sequential=ref["tasks"]))
+
+
+
 def small_programs():
     """<= 2 units, <= 3 steps each inside the fork; every interleaving is run"""
     progs = []
@@ -811,6 +975,16 @@ def small_programs():
                                  [["enter", 11], ["with", 5], ["log", 12], ["exit"], ["log", 13], ["exit"]]], kinds=[k0, kind], family=fam))
         progs.append(dict(codes=[[["enter", 1], ["create", 5], [kind, 1], ["join", 1], ["exit"]],
                                  [["with", 5], ["log", 12], ["exit"], ["log", 13]]], kinds=[k0, kind], family=fam))
+    # a unit spawned inside a `with h.context():` segment which its creator leaves before the unit logs
+    for kind, k0, fam in (("task", "task", "tasks"), ("pthread", "task", "mixed"), ("pthread", "thread", "threads")):
+        child = [["log", 11], ["enter", 12], ["exit"]]
+        child = [["remote", 10]] + child + [["exit"]] if kind == "pthread" else child
+        progs.append(dict(codes=[[["enter", 1], ["create", 5], ["ctx", 5], [kind, 1], ["exit"], ["log", 2], ["join", 1], ["with", 5], ["exit"], ["exit"]],
+                                 child], kinds=[k0, kind], family=fam))
+        child = [["log", 11], ["log", 12]]
+        child = [["remote", 10]] + child + [["exit"]] if kind == "pthread" else child
+        progs.append(dict(codes=[[["enter", 1], ["enter", 2], ["ctx", 1], [kind, 1], ["exit"], ["log", 3], ["join", 1], ["exit"], ["exit"]],
+                                 child], kinds=[k0, kind], family=fam))
     # preserve_context: the wrapper is made, then the parent logs more before / while the thread calls it;
     # several wrappers from one action
     for k0, fam in (("thread", "threads"), ("task", "mixed")):
@@ -825,6 +999,7 @@ def small_programs():
 
 
 def run(ctx):
+    evaluate_extractors(ctx)
     rng = ctx.rng("gen")
     # exhaustive part
     cases = []
@@ -863,6 +1038,13 @@ def run(ctx):
 
 def replay(ctx, obj):
     case = obj.get("case") or {}
+    if case.get("kind") == "extractor":
+        ref = run_extractor(dict(case, sched="A;B"))
+        obs = run_extractor(case)
+        for t in obs["tasks"]:
+            print(t)
+        check_extractor(ctx, case, obs, ref)
+        return
     c = dict(codes=case["codes"], kinds=case["kinds"], sched=case["sched"], family=case.get("family", "?"))
     sreal = run_real(dict(c, sched=seq_schedule(c["codes"])))
     sshape, _p, _e = parse_shape(sreal["messages"], sreal.get("remote"))
